@@ -5,6 +5,7 @@ import (
 	"encoding/base64"
 	"encoding/hex"
 	"fmt"
+	"os"
 	"strings"
 	"testing"
 
@@ -354,12 +355,19 @@ func runSource(c sourceCase) (res jobResult) {
 }
 
 func checkSource(c sourceCase) harness.Outcome {
+	if id := excludedSource(c); id != "" {
+		return harness.Outcome{Excluded: []string{id}, Classes: []string{"steered-around-known-finding"}}
+	}
 	res, fatal := dispatch(job{Kind: "source", Source: &c})
 	out := harness.Outcome{Classes: res.Classes, Nontrivial: res.Nontrivial, Excluded: res.Excluded}
 	src := c.bytes()
 	show := fmt.Sprintf("%q", truncate(string(src), 400))
 	if fatal != "" {
 		out.Nontrivial = true
+		triageFatal(fmt.Sprintf("source: %s :: %s", oneLine(fatal, 500), oneLine(fmt.Sprint(c), 300)))
+		if os.Getenv("C02_TRIAGE") != "" {
+			return out
+		}
 		out.Fail = fmt.Sprintf("source text of %d bytes: %s\nsource: %s\n(property C02: for any source text Run/Eval/Compile/Call/Object/ParseFile/ParseFunction return)", len(src), oneLine(fatal, 700), show)
 		return out
 	}
@@ -367,9 +375,17 @@ func checkSource(c sourceCase) harness.Outcome {
 		out.Fail = "worker: " + res.Note
 		return out
 	}
+	if res.Millis > 3000 {
+		out.Classes = append(out.Classes, "slow>3s")
+		triageFatal(fmt.Sprintf("SLOW %d ms: %s", res.Millis, oneLine(fmt.Sprint(c), 300)))
+	}
 	for _, p := range res.Panics {
 		if id := knownSourcePanic(p); id != "" {
 			out.Excluded = append(out.Excluded, id)
+			continue
+		}
+		triageFatal(fmt.Sprintf("source-panic: %s: %s :: %s", p.Where, p.Text, oneLine(string(src), 300)))
+		if os.Getenv("C02_TRIAGE") != "" {
 			continue
 		}
 		out.Fail = fmt.Sprintf("a Go panic crossed %s: %s\nsource (%d bytes): %s\n(property C02: no Go runtime panic escapes the public API)", p.Where, p.Text, len(src), show)
